@@ -122,6 +122,11 @@ def generate(repo, outdir):
     c["FastEtherCat_MAX_PROGS"] = cat.class_const("FastEtherCat", "MAX_PROGS")
     c["EtherXDP_INDEX0"] = cat.class_const("EtherXDP", "INDEX0")
     c["EtherXDP_minimumPacketSize"] = cat.class_const("EtherXDP", "minimumPacketSize")
+    # EtherCat.get_fmmu_addr: self.next_logical_addr += <stride>
+    incs = [n for n in ast.walk(ec.func("EtherCat", "get_fmmu_addr")) if isinstance(n, ast.AugAssign)]
+    if len(incs) != 1 or not isinstance(incs[0].op, ast.Add):
+        raise ConstError("EtherCat.get_fmmu_addr is not a single += of a constant")
+    c["EtherCat_fmmu_stride"] = _eval(incs[0].value, {})
     c["SyncManager_OUT"] = ec.enum("SyncManager")["OUT"]
     c["SyncManager_IN"] = ec.enum("SyncManager")["IN"]
     lines = ["(* GENERATED from /repo by harness/gen_consts.py on every run - do not edit *)",
